@@ -293,26 +293,70 @@ def port_metadata_probe(rec):
     top.d.props.set("k", 5) if hasattr(top.d.props, "set") else None
     top.d.related_clk = top.clk
     top.w2 = h.Signal(width=2)
+    # relations to ports declared LATER than the port that refers to them, and to an internal signal
+    top.en = h.Input(desc="enable")
+    top.iclk = h.Signal(desc="internal clock")
+    top.en.related_clk = top.iclk
+    top.q = h.Output()
+    top.vdd2 = h.Power()
+    top.q.related_pwr = top.vdd2
+    top.q.related_gnd = top.vss
+    top.ru = build.leaf_call("E1", 5)(a=top.en, b=top.iclk)
+    top.rq = build.leaf_call("E1", 6)(a=top.q, b=top.vdd2)
     top.u = leaf(a=top.clk, b=top.d)
     top.v = leaf(a=top.vdd, b=top.w2)
     top.g = build.leaf_call("E1", 4)(a=top.vss, b=top.vdd)
-    want = {n: (p.width, p.direction, p.usage, p.desc, getattr(p.related_clk, "name", None)) for n, p in top.ports.items()}
+    rel = lambda p: tuple(getattr(getattr(p, f, None), "name", None) for f in ("related_clk", "related_pwr", "related_gnd"))
+    want = {n: (p.width, p.direction, p.usage, p.desc, rel(p)) for n, p in top.ports.items()}
     try:
         flat = hflatten(top)
     except Exception as e:
         rec.count("probe.port-metadata-rejected")
         return
-    got = {n: (p.width, p.direction, p.usage, p.desc, getattr(p.related_clk, "name", None)) for n, p in flat.ports.items()}
+    got = {n: (p.width, p.direction, p.usage, p.desc, rel(p)) for n, p in flat.ports.items()}
     if got != want:
         diff = {n: (want.get(n), got.get(n)) for n in set(want) | set(got) if want.get(n) != got.get(n)}
         rec.violation("flat-ports-changed", f"flatten() changed port attributes (width, direction, usage, desc, related clock): {diff}",
                       case={"kind": "probe", "what": "port-metadata"})
 
 
+def same_name_revisions(rec, rng, n):
+    """Two DIFFERENT hierarchies whose top modules carry the same name, flattened one after the other in one process (a design revised
+    and rebuilt in a session): each result is the flattening of the module it was asked for."""
+    import hdl21 as h
+    from hdl21.flatten import flatten as hflatten
+
+    for k in range(n):
+        name = f"Rev{next(build._counter)}"
+        for rev in (1, 2):
+            rec.count("history.same-name-revisions")
+            top = h.Module(name=name)
+            nports = 1 + rev
+            ports = [top.add(h.Port(), name=f"p{i}") for i in range(nports)]
+            sub = h.Module(name=f"{name}Sub{rev}")
+            sub.add(h.Port(), name="a")
+            sub.add(h.Port(), name="b")
+            for j in range(rev + 1):
+                sub.add(h.Instance(of=h.R(r=10 * rev + j))(p=sub.a, n=sub.b), name=f"r{j}")
+            for i in range(nports):
+                top.add(h.Instance(of=sub)(a=ports[i], b=ports[(i + 1) % nports]), name=f"s{i}")
+            case = {"kind": "probe", "what": "same-name-revisions", "rev": rev}
+            try:
+                flat = hflatten(top)
+            except Exception as e:
+                rec.violation(f"flatten-raises:{type(e).__name__}", f"flatten of revision {rev} of a module named {name} raised {str(e)[:100]}", case=case)
+                continue
+            want_leaves = nports * (rev + 1)
+            if list(flat.ports) != list(top.ports) or len(flat.instances) != want_leaves:
+                rec.violation("flat-leaf-count", f"revision {rev} of a module named `{name}` ({nports} ports, {want_leaves} leaf devices) flattens to a module with ports "
+                                                 f"{list(flat.ports)} and {len(flat.instances)} instances (an earlier module of that name was flattened before)", case=case)
+
+
 def run(ctx, rec):
     rng = ctx.rng("c16")
     if ctx.shard == 0:
         port_metadata_probe(rec)
+        same_name_revisions(rec, rng, 3)
     if ctx.shard == 0:
         for label, d in colon_shared_designs():
             rec.count("colon-shared.designs")
